@@ -198,7 +198,7 @@ fn check(c: &Case, ctx: &Ctx) -> Outcome {
 const RULE: &str = "generated: 1-3 ancestor contigs (length k..5k, one of exactly k with a central site in 15% of cases) built by greedy extension so that every split k-mer is unique on both strands and none is self-reverse-complement, also after substitution (checked; residual rejections counted); 1-6 substitution sites more than (k-1)/2 apart and >= (k-1)/2 from the contig ends, 2-4 alleles over 2-10 samples with >=2 alleles present; every sample's contigs independently reverse-complemented and shuffled; all k. Oracle: multiset of output columns (normalised up to complement) == planted columns, names in input order, equal lengths. Every accepted case has >=1 site (non-trivial); distinct by (k, ancestor, sites, samples).";
 
 fn stages(tier: Tier) -> Vec<Box<dyn Stage>> {
-    vec![gen_stage_show("align", RULE, tier.pick(1200, 20_000), 250, case_strategy, check, |c| match materialise(c) {
+    vec![gen_stage_show("align", RULE, tier.pick(3200, 40_000), 250, case_strategy, check, |c| match materialise(c) {
         Ok(m) => json!({"k": c.k, "ancestor": m.ancestor.iter().map(|r| lossy(r)).collect::<Vec<_>>(), "sites": m.sites.iter().map(|(c, p, a)| json!({"contig": c, "pos": p, "alleles": lossy(a)})).collect::<Vec<_>>(), "n_samples": c.n_samples}),
         Err(e) => json!({"rejected": e}),
     })]
